@@ -78,6 +78,8 @@ SHAPES = {
     "full2-single-lead": dict(flavor="full", n_in=2, nL=1, seed=9),
     "full2-allmissing-loc": dict(flavor="full", n_in=2, all_missing_loc=True, seed=10),
     "full2-nomissing": dict(flavor="full", n_in=2, miss_every=0, seed=11, nT=4, nL=4, nS=3),
+    "full2-single-time-lead": dict(flavor="full", n_in=2, nT=1, nL=1, nS=3, seed=12, miss_every=0),
+    "full2-one-case": dict(flavor="full", n_in=2, nT=1, nL=1, nS=1, seed=13, miss_every=0),
 }
 
 
